@@ -19,7 +19,8 @@ pub struct Case {
     pub foreign: u8,
     /// `.kismet_temp` content: bit0 age limit-10s, bit1 limit-1s, bit2 exactly limit,
     /// bit3 limit+1s, bit4 limit+1h, bit5 old subdirectory, bit6 old hard link to entry k00,
-    /// bit7 a young (10 min) file that is a second hard link to an application file outside the cache (a value
+    /// bit7 (also: a young symbolic link to a payload two limits old, and an old symbolic link to a young payload)
+    /// a young (10 min) file that is a second hard link to an application file outside the cache (a value
     /// being staged by link rather than by copy)
     pub temps: u8,
     /// the .kismet_temp directory itself was last modified two hours ago (nothing created or removed there since),
@@ -49,7 +50,7 @@ impl Case {
     }
 }
 
-const TEMP_NAMES: [&str; 8] = ["t_young10", "t_young1", "t_exact", "t_old1", "t_old3600", "t_olddir", "t_oldlink", "t_younglink"];
+const TEMP_NAMES: [&str; 10] = ["t_young10", "t_young1", "t_exact", "t_old1", "t_old3600", "t_olddir", "t_oldlink", "t_younglink", "t_youngsym", "t_oldsym"];
 
 fn materialise(dir: &Path, case: &Case, now: i128) {
     let day = 86_400 * SEC;
@@ -109,6 +110,16 @@ fn materialise(dir: &Path, case: &Case, now: i128) {
             let blob = dir.parent().unwrap().join(".app_blob");
             world::plant(&blob, b"application blob", 0o644, now - 600 * SEC - 120 * SEC, now - 600 * SEC);
             shim::passthrough(|| std::fs::hard_link(&blob, tdir.join(TEMP_NAMES[7])).unwrap());
+            // and two symbolic links: a young one to a payload that is two age limits old, an old one to a young
+            // payload (the age that counts is the directory entry's own, not that of what it points to)
+            let old_payload = dir.parent().unwrap().join(".app_old_payload");
+            world::plant(&old_payload, b"old payload", 0o644, now - 2 * LIMIT, now - 2 * LIMIT);
+            shim::passthrough(|| {
+                std::os::unix::fs::symlink(&old_payload, tdir.join(TEMP_NAMES[8])).unwrap();
+                std::os::unix::fs::symlink(&blob, tdir.join(TEMP_NAMES[9])).unwrap();
+            });
+            world::set_times(&tdir.join(TEMP_NAMES[8]), now - 600 * SEC, now - 600 * SEC);
+            world::set_times(&tdir.join(TEMP_NAMES[9]), now - 2 * LIMIT, now - 2 * LIMIT);
         }
         if case.temps & 64 != 0 && !case.keys.is_empty() {
             shim::passthrough(|| {
@@ -142,7 +153,7 @@ fn judge(case: &Case, before: &Snapshot, after: &Snapshot, pruned: bool, cleaned
         if in_temp && k.matches('/').count() == 1 {
             let idx = TEMP_NAMES.iter().position(|n| *n == base);
             match idx {
-                Some(0) | Some(1) | Some(7) => {
+                Some(0) | Some(1) | Some(7) | Some(8) => {
                     if a.is_none() {
                         bad.push((
                             "young-temp-removed".into(),
@@ -150,7 +161,7 @@ fn judge(case: &Case, before: &Snapshot, after: &Snapshot, pruned: bool, cleaned
                         ));
                     }
                 }
-                Some(3) | Some(4) | Some(6) => {
+                Some(3) | Some(4) | Some(6) | Some(9) => {
                     // (a hard link shares its inode's mtime: if the published entry was
                     // re-queued by this very maintenance, the link is no longer old)
                     let still_old = a.map(|a| a.meta.mtime < b.meta.mtime + SEC).unwrap_or(false);
